@@ -185,12 +185,14 @@ func VerifH_C19_CallerContext() {
 	}
 	ctx, cancel := context.WithCancel(context.Background())
 	callerEnded := false
+	var cancelledAt int64
 	switch how {
 	case 0:
 		go func() {
 			verifPause()
 			verifLock()
 			callerEnded = true
+			cancelledAt = verifNow()
 			verifUnlock()
 			cancel()
 		}()
@@ -202,6 +204,19 @@ func VerifH_C19_CallerContext() {
 	defer cancel()
 	err := rc.Ping(ctx) // the broker never answers
 	verifReach("ping-returned")
+	if how == 0 {
+		verifLock()
+		ce, ca := callerEnded, cancelledAt
+		verifUnlock()
+		if ce {
+			// C11: the call returns as soon as its context is cancelled, not when the response timeout expires later
+			prompt := verifNow() == ca // no virtual time passes between the cancellation and the return
+			if !verifSymbolic() {
+				prompt = verifNow()-ca < 5*unit // native replay: well before the response timeout (10 units)
+			}
+			verifAssert(prompt, "C11.ping_returns_promptly_after_cancel")
+		}
+	}
 	verifAssert(err != nil, "C19.unanswered_ping_reports_error")
 	var rte *RequestTimeoutError
 	isRTE := errors.As(err, &rte)
@@ -219,4 +234,45 @@ func VerifH_C19_CallerContext() {
 		verifAssert(!isRTE, "C19.request_timeout_error_only_for_response_timeout")
 	}
 	cli.Close()
+}
+
+// The error that ended a connection stays inspectable on the client: after a protocol violation by the
+// broker errors.Is(Err(), ErrInvalidPacket) holds, after a peer close Err() is io.EOF itself -- also when
+// closing the transport during clean-up fails with an error of its own.
+func VerifH_C19_ConnEnd() {
+	conn := newVconn("c0")
+	conn.answerConnect([]byte{0x20, 2, 0, 0})
+	if verifChoice("closeerr", 2) == 1 {
+		conn.closeErr = errors.New("transport: failed to send close notification")
+	}
+	cli := &BaseClient{Transport: conn}
+	var stateErr error
+	cli.ConnState = func(s ConnState, err error) {
+		if s == StateClosed {
+			stateErr = err
+		}
+	}
+	_, cerr := cli.Connect(context.Background(), "cid")
+	verifAssert(cerr == nil, "C19.harness_connect")
+	cause := verifChoice("cause", 3)
+	switch cause {
+	case 0:
+		conn.peerClose()
+	case 1:
+		conn.inject([]byte{0xF0, 0}) // reserved packet type
+	case 2:
+		conn.inject([]byte{0x82, 0x80, 0x80, 0x80, 0x80, 0x01}) // remaining length of five bytes
+	}
+	<-cli.Done()
+	verifReach("ended")
+	err := cli.Err()
+	switch cause {
+	case 0:
+		verifAssert(err == io.EOF, "C19.eof_passthrough_on_peer_close")
+	case 1:
+		verifAssert(errors.Is(err, ErrInvalidPacket), "C19.is_finds_sentinel_after_protocol_violation")
+	case 2:
+		verifAssert(errors.Is(err, ErrInvalidPacketLength), "C19.is_finds_sentinel_after_protocol_violation")
+	}
+	verifAssert(stateErr == err, "C19.state_callback_error_is_err")
 }
